@@ -14,6 +14,7 @@ Require Import V.Proofs.AppenderInv.
 Require Import V.Proofs.AppenderInv2.
 Require Import V.Proofs.C02Proofs.
 Require Import V.Proofs.C02Quiescent.
+Require Import V.Proofs.AppenderMsgs.
 Open Scope Z_scope.
 
 (* The invariant holds in every configuration reachable by ANY number of publisher (and environment) threads
@@ -97,6 +98,16 @@ Theorem C02_accepted_has_claim : forall c, wf_cfg c -> forall s gh P t l j pos,
   exists g e, In e (g_claims gh g) /\ e_t e = t /\ e_j e = j /\ e_b e <= TL c /\ pos = g * TL c + e_b e.
 Proof. intros c _. exact (accepted_has_claim c). Qed.
 Print Assumptions C02_accepted_has_claim.
+
+(* which message: the j-th attempt of publisher t, if accepted, wrote its own claim, and that claim carries message number
+   (accepted offers before attempt j) of the list `orig t` the publisher was started with - each publisher's messages
+   appear in its offer order, none skipped, none repeated (reachm = reach from publishers started with `orig`) *)
+Theorem C02_accepted_message : forall c, wf_cfg c -> forall orig s th gh t l j pos,
+  reachm c orig s th gh -> th t = TPub l -> nth_error (p_res l) j = Some (Ok pos) ->
+  exists g e, In e (g_claims gh g) /\ e_t e = t /\ e_j e = j /\ e_b e <= TL c /\ pos = g * TL c + e_b e /\
+    e_msg e = nth (count_ok (firstn j (p_res l))) (orig t) [].
+Proof. exact accepted_message. Qed.
+Print Assumptions C02_accepted_message.
 
 (* each publisher's accepted positions increase in its offer order; positions of different claims are distinct *)
 Theorem C02_positions_increasing : forall c, wf_cfg c -> forall s gh P t l j j' pos pos',
